@@ -1931,8 +1931,6 @@ def run_hist_case(case, acc):
                 if res[False][nm].shape != want.shape or np.any(np.abs(res[False][nm] - want) > tol):
                     acc.skip('history-uncolored-twin-differs-from-closed-form(not C03):%s%s:%s-after-%s:%s' % (
                         comp, '+newton' if newton else '', op, prev, nm))
-                    if _state.get('debug'):
-                        print('TWIN', nm, np.abs(res[False][nm] - want).max(), tol, case)
                     return
             for nm, (want, tol) in exp.items():
                 if nm not in res[False]:
